@@ -29,7 +29,7 @@ def results_space(tier: str):
             items.append({"id": i, "sql": sql, "dialect": dialect, "md": md})
 
     D = 2 if tier == "quick" else 3
-    for sql, (st, trace, ndev) in enumerate_cases(sqlgen.TABLE_PROFILE, D, 2)[0]:
+    for sql, (st, trace, ndev) in enumerate_cases(sqlgen.TABLE_PROFILE, D, 2, new_alt_bound=None if tier == "quick" else 2)[0]:
         if st["kind"] != "select_into":
             add("gen:C01", sql)
         else:
@@ -37,7 +37,7 @@ def results_space(tier: str):
     # statements that read or write file paths (C01's second ball), under a dialect that has the form
     from vmc.c01 import has_path
 
-    for sql, (st, trace, ndev) in enumerate_cases(sqlgen.PATH_PROFILE, D - 1, 2)[0]:
+    for sql, (st, trace, ndev) in enumerate_cases(sqlgen.PATH_PROFILE, 1, 2)[0]:
         if has_path(st):
             d = "postgres" if st["kind"] in ("copy_from", "copy_to") else "sparksql"
             add("gen:C01paths", sqlgen.render(st, sqlgen.R(dialect=d)), d)
